@@ -462,7 +462,7 @@ def k_lunar_year_months(eng, count):
             return "an element is not a month stepped from month 1 of this year", []
         return None, [("length", "true" if len(items) == count else "false")] + [("month-%d" % k, "true" if x.k == k else "false") for k, x in enumerate(items)]
     return _generic(eng, "13.c/B/lunar-year-months/%d" % count, "13.c", "every year, a year of %d months; listing loop unrolled (bound proved)" % count, "LunarYear", "get_months", 1, 16, setup, expect,
-                    "a lunar year does not list exactly its months")
+                    "a lunar year does not list exactly its months", scan="lunar_lists_scan")
 
 
 def k_lunar_year_days(eng, count):
